@@ -41,6 +41,115 @@ theorem exploreC_succ (s : Simp) (o : Oracle) (cfg : Cfg) (codes : List (Nat × 
           { acc with ends := acc.ends ++ (stepC s o cfg codes cs).ends,
                      boundedLoops := acc.boundedLoops ++ (stepC s o cfg codes cs).bounded } := rfl
 
+/-! ### with CREATE off nothing is ever created -/
+
+/-- no account has been created, no address handed out, and no suspended caller says otherwise -/
+def NoCr (cs : CState) : Prop :=
+  cs.created = [] ∧ cs.nonce = 0 ∧ ∀ k ∈ cs.conts, k.snapCreated = [] ∧ k.create = none
+
+section
+variable {s : Simp} {o : Oracle} {cfg : Cfg} {codes : List (Nat × List Nat)} {cs : CState}
+
+theorem stepC_cr (hnc : cfg.create = false) : ∃ lo, stepC s o cfg codes cs = finish cs lo ∧ LocalCr cs lo := by
+  rw [stepC_eq]
+  split
+  · rw [createOut_off hnc]; exact ⟨_, rfl, localCr_end⟩
+  split
+  · exact ⟨_, rfl, callOut_cr⟩
+  · split
+    · exact ⟨_, rfl, balOut_cr⟩
+    · split
+      · exact ⟨_, rfl, shaOut_cr⟩
+      · split
+        · exact ⟨_, rfl, logOut_cr⟩
+        · split
+          · exact ⟨_, rfl, extOut_cr⟩
+          · exact ⟨_, rfl, localCr_lift⟩
+
+theorem noCr_init {env : Env} {this : Nat} : NoCr (initC env codes this) :=
+  ⟨rfl, rfl, fun k hk => by cases hk⟩
+
+/-- **stepC_noCr.** One step of the machine with CREATE off keeps `NoCr`, and its ends have no created accounts -/
+theorem stepC_noCr (hnc : cfg.create = false) (h : NoCr cs) :
+    (∀ cs' ∈ (stepC s o cfg codes cs).next, NoCr cs') ∧
+    (∀ ce ∈ (stepC s o cfg codes cs).ends, ce.created = [] ∧ ce.nonce = 0) := by
+  obtain ⟨lo, e, hcr⟩ := stepC_cr (s := s) (o := o) (codes := codes) (cs := cs) hnc
+  obtain ⟨h1, h2, h3⟩ := h
+  rw [e]
+  refine ⟨fun cs' hm => ?_, fun ce hm => ?_⟩
+  · rcases mem_finish_next hm with hm | ⟨e', _, k, ks, h', hc, _, _, hm⟩
+    · obtain ⟨a, b, c⟩ := hcr cs' hm
+      refine ⟨a.trans h1, b.trans h2, fun k hk => ?_⟩
+      rcases c with c | ⟨k0, c, c1, c2⟩
+      · rw [c] at hk; exact h3 k hk
+      · rw [c] at hk
+        rcases List.mem_cons.1 hk with rfl | hk
+        · exact ⟨c1.trans h1, c2⟩
+        · exact h3 k hk
+    · have hk := h3 k (by rw [hc]; exact List.mem_cons_self)
+      unfold frameEndH at hm
+      rw [hk.2] at hm
+      simp only [List.mem_singleton] at hm
+      subst hm
+      refine ⟨?_, h2, fun k' hk' => h3 k' (by rw [hc]; exact List.mem_cons_of_mem _ hk')⟩
+      show (if haltOk h' then cs.created else k.snapCreated) = []
+      rw [h1, hk.1]; simp
+  · rw [finish_ends] at hm
+    obtain ⟨e', _, hm⟩ := List.mem_flatMap.1 hm
+    cases hc : cs.conts with
+    | nil =>
+      rw [frameEnd_nil hc] at hm
+      simp only [List.mem_singleton] at hm
+      subst hm; exact ⟨h1, h2⟩
+    | cons k ks =>
+      by_cases hn : ∃ h, e'.out = .halt h ∧ e'.tag = .normal
+      · obtain ⟨h', ho, ht⟩ := hn
+        rw [frameEnd_halt hc ho ht] at hm
+        have hk := h3 k (by rw [hc]; exact List.mem_cons_self)
+        unfold frameEndH at hm
+        rw [hk.2] at hm
+        cases hm
+      · rw [frameEnd_other hn] at hm
+        simp only [List.mem_singleton] at hm
+        subst hm; exact ⟨h1, h2⟩
+
+/-- **exploreC_noCr.** -/
+theorem exploreC_noCr (hnc : cfg.create = false) (fuel : Nat) : ∀ (steps : Nat) (wl : List CState) (acc : ResultC),
+    (∀ cs ∈ wl, NoCr cs) → (∀ ce ∈ acc.ends, ce.created = [] ∧ ce.nonce = 0) →
+    ∀ ce ∈ (exploreC s o cfg codes fuel steps wl acc).ends, ce.created = [] ∧ ce.nonce = 0 := by
+  induction fuel with
+  | zero =>
+    intro steps wl acc hwl hacc
+    cases wl with
+    | nil => rw [exploreC_nil]; exact hacc
+    | cons cs wl => rw [exploreC_zero]; exact hacc
+  | succ fuel ih =>
+    intro steps wl acc hwl hacc
+    cases wl with
+    | nil => rw [exploreC_nil]; exact hacc
+    | cons cs wl =>
+      rw [exploreC_succ]
+      split
+      · exact ih _ _ _ (fun x hx => hwl x (List.mem_cons_of_mem _ hx)) hacc
+      · obtain ⟨hn, he⟩ := stepC_noCr (s := s) (o := o) (codes := codes) hnc (hwl cs (List.mem_cons_self ..))
+        refine ih _ _ _ ?_ ?_
+        · intro x hx
+          rcases List.mem_append.1 hx with hx | hx
+          · exact hn x (List.mem_reverse.1 hx)
+          · exact hwl x (List.mem_cons_of_mem _ hx)
+        · intro ce hm
+          rcases List.mem_append.1 hm with hm | hm
+          · exact hacc ce hm
+          · exact he ce hm
+
+/-- the ends of a run with CREATE off -/
+theorem runC_noCr (hnc : cfg.create = false) {env : Env} {this fuel : Nat} :
+    ∀ ce ∈ (runC s o cfg env codes this fuel).ends, ce.created = [] ∧ ce.nonce = 0 :=
+  exploreC_noCr hnc fuel 0 [initC env codes this] {} (fun cs hm => by
+    rw [List.mem_singleton.1 hm]; exact noCr_init) (fun ce hm => by cases hm)
+
+end
+
 /-! ### soundness -/
 
 section
@@ -81,7 +190,7 @@ theorem stepC_good (hs : SimpSound s) (hmem : cfg.maxMem + 32 ≤ p.memLimit) (h
     (∀ ce ∈ (stepC s o cfg codes cs).ends, GoodEndC p S w0 cs0 H ce) := by
   refine ⟨?_, ?_⟩
   · intro cs' hm I hI hHI f0 h0 hsat'
-    obtain ⟨ext, hp⟩ := stepC_next_path hch.cp hm
+    obtain ⟨ext, hp⟩ := stepC_next_path hm
     have hsat : Sat I cs.st.path := by rw [hp] at hsat'; exact (sat_append.1 hsat').1
     obtain ⟨w, f, kcs, hrel, hback⟩ := hg I hI hHI f0 h0 hsat
     obtain ⟨w', f', kcs', hrel', hb'⟩ :=
@@ -89,7 +198,7 @@ theorem stepC_good (hs : SimpSound s) (hmem : cfg.maxMem + 32 ≤ p.memLimit) (h
         hsat'
     exact ⟨w', f', kcs', hrel', fun r hr => hback r (hb' r hr)⟩
   · intro ce hm htag h hout I hI hHI f0 h0 hsat'
-    have hsat : Sat I cs.st.path := by rw [← stepC_end_path hch.cp hm]; exact hsat'
+    have hsat : Sat I cs.st.path := by rw [← stepC_end_path hm]; exact hsat'
     obtain ⟨w, f, kcs, hrel, hback⟩ := hg I hI hHI f0 h0 hsat
     obtain ⟨w', hrun, hW⟩ := (stepC_sound (o := o) hs hI hmem hdep hcodes hS hcb
       (fun hbal => ⟨hob hbal, (hH I hHI).1 hbal⟩) (hH I hHI).2 hch hrel hsat).2 ce hm htag h hout
